@@ -67,7 +67,7 @@ CHECKS["C04"] = {
 }
 CHECKS["C05"] = {
     "technique": "range-owner typestate: symbolic disjointness of the destroyed range and the owner's claimed range at every drop_in_place in &mut self methods; Drop-range extraction",
-    "text": "Static analysis: the owners' Drop ranges are extracted symbolically from their Drop impls (and shown to be [0,position) / [position,N) / [index,index_back) of storage without drop glue); in every &mut self method of such a type, at each drop_in_place call the field values stored so far make the owner's claimed range provably disjoint from the destroyed range (exclude-before-destroy), so a destructor that unwinds cannot cause the owner's Drop to release the range again; by-value methods (count, last) only call &mut-self primitives and drop self once. Universally quantified over n, positions and which element panics. It found the nth / nth_back double drop (fixed, see known_findings.json). C05.Y applies to every method of a tracked owner (by-reference and by-value receivers): an element read out of the owner's storage is excluded from the claimed range before any later call that can unwind while the owner is live.",
+    "text": "Static analysis: the owners' Drop ranges are extracted symbolically from their Drop impls (and shown to be [0,position) / [position,N) / [index,index_back) of storage without drop glue); in every &mut self method of such a type, at each drop_in_place call the field values stored so far make the owner's claimed range provably disjoint from the destroyed range (exclude-before-destroy), so a destructor that unwinds cannot cause the owner's Drop to release the range again; by-value methods (count, last) only call &mut-self primitives and drop self once. Universally quantified over n, positions and which element panics. It found the nth / nth_back double drop (fixed, see known_findings.json). C05.Y applies to every method of a tracked owner (by-reference and by-value receivers): an element read out of the owner's storage is excluded from the claimed range before any later call that can unwind while the owner is live. C05.P/O: at every call that can run an element destructor outside the crate's own drop_in_place sites (a foreign callable handed an element by value), each slot already moved out is excluded from its owner's claimed range and the positions move with the direction of travel (C04's per-call-site state rule, judged here too).",
     "design_ref": "DESIGN.md §3 C05",
     "note": TRUST + " core's slice drop_in_place itself never drops an element twice when one destructor unwinds (trusted). Leaks after an unwinding destructor are allowed by the property.",
 }
@@ -101,7 +101,7 @@ CHECKS["C12"] = {
 
 CHECKS["C14"] = {
     "technique": "MIR abstract interpretation with interpreted atoms (min, >>k, &mask, chunk length) and relational merge facts, anchored on what reaches Formatter::write_str: budget / coverage / capacity obligations of every unchecked operation in hex.rs, per-index store rule for the table encoder, per-iteration accounting rule for the chunk loop",
-    "text": "Decided statically, with N, the precision and the byte values symbolic, under F0/F1 (table encoder) and - capacity and case selection only - F2 = faster-hex (every run). WHAT IS PRINTED: H8 the table encoder stores, for every k < src.len(), dst[2k] = TABLE[src[k] >> 4] and dst[2k+1] = TABLE[src[k] & 15] (closure over zip(dst.chunks_exact_mut(2), src), or the loop forms over the same pairing), H6 TABLE is b\"0123456789abcdef\" for LowerHex / ..ABCDEF for UpperHex (UPPER forwarded unchanged); H10 on the stack-buffer path every path to the single print runs exactly one encoder call from arr[0..L), L >= ceil(d/2), into the printed buffer from its first byte; H9 on the chunked path the pieces are input.chunks(k) over arr[0..ceil(d/2)) in order, each iteration encodes its piece into the buffer's start once before printing, prints exactly min(2*piece, digits_left) and digits_left starts at d and is only ever decremented by what was printed; H1/H7 d = min(precision, 2N) exactly and the stack-buffer print has length d. Together: the output is the first min(p, 2N) characters of the concatenated two-digit forms in index order (a prefix-of-concatenation argument stated in DESIGN; odd p ends on a high nibble because the cut is a prefix). SAFETY of every unchecked operation: H2 ceil(d/2) <= N (both hint spellings), 2*bytes >= d; H3/H4 printed prefixes lie inside their buffers, entered under N <= 1024 resp. with 2*chunk <= 2048 and no budget underflow; H5 dst.len() >= 2*src.len() at every encoder call (the precondition of the encoder's hint and of unwrap_unchecked on faster_hex's result). PARTIAL in one respect only: equality of the SIMD encoder's digits with the table encoder's is faster_hex's contract (trusted, not analysed); a chunked path that is not a loop over an iterator pipeline is recorded as not decided (evidence: coverage.not_decided), not as a violation - the claim then falls back to the safety obligations.",
+    "text": "Decided statically, with N, the precision and the byte values symbolic, under F0/F1 (table encoder) and - capacity and case selection only - F2 = faster-hex (every run). WHAT IS PRINTED: H8 the table encoder stores, for every k < src.len(), dst[2k] = TABLE[src[k] >> 4] and dst[2k+1] = TABLE[src[k] & 15] (closure over zip(dst.chunks_exact_mut(2), src), or the loop forms over the same pairing), H6 TABLE is b\"0123456789abcdef\" for LowerHex / ..ABCDEF for UpperHex (UPPER forwarded unchanged); H10 on the stack-buffer path every path to the single print runs exactly one encoder call from arr[0..L), L >= ceil(d/2), into the printed buffer from its first byte; H9 on the chunked path the pieces are input.chunks(k) over arr[0..ceil(d/2)) in order, each iteration encodes its piece into the buffer's start once before printing, prints exactly min(2*piece, digits_left) and digits_left starts at d and is only ever decremented by what was printed; H1/H7 d = min(precision, 2N) exactly and the stack-buffer print has length d. Together: the output is the first min(p, 2N) characters of the concatenated two-digit forms in index order (a prefix-of-concatenation argument stated in DESIGN; odd p ends on a high nibble because the cut is a prefix). SAFETY of every unchecked operation: H2 ceil(d/2) <= N (both hint spellings), 2*bytes >= d; H3/H4 printed prefixes lie inside their buffers, entered under N <= 1024 resp. with 2*chunk <= 2048 and no budget underflow; H5 dst.len() >= 2*src.len() at every encoder call (the precondition of the encoder's hint and of unwrap_unchecked on faster_hex's result). PARTIAL in one respect only: equality of the SIMD encoder's digits with the table encoder's is faster_hex's contract (trusted, not analysed); a chunked path that is not a loop over an iterator pipeline is recorded as not decided (evidence: coverage.not_decided), not as a violation - the claim then falls back to the safety obligations. H11: the formatter is handed to nothing but precision() and the judged write_str sites (no second output channel such as write!/pad).",
     "design_ref": "DESIGN.md §3 C14, §8.6",
     "note": TRUST + " faster_hex's documented contract (lower/upper-case two-digit encoding; fails only on an undersized destination), slice::chunks / chunks_exact_mut / Zip pairing order, and that a str built from ASCII digit bytes prints those bytes are trusted.",
 }
